@@ -345,6 +345,7 @@ package jrpc2
 //@   modifies jsonDecodes, jsonSource
 //@   at call.pushErrorLocked#1 assert[C02:undecodable-is-parse-error] arg1 == boxof(errInvalidRequest, "*jrpc2.Error") && !jsonValid(str(bits))
 //@   at call.pushErrorLocked#2 assert[C02:empty-batch-is-invalid-request] arg1 == boxof(errEmptyBatch, "*jrpc2.Error")
+//@   at call.pushErrorLocked#2 assert[C01:empty-batch-error-only-for-an-empty-array] len(in) == 0
 //@   modifies monitor(Server, s), fired, chCloses, chSends, chRecvs(ch), held(s.mu)
 //@   ensures !held(s.mu)
 //@   loop 1 invariant !held(s.mu)
@@ -555,12 +556,21 @@ package jrpc2
 //@   requires n > 0 ==> (forall(i Int, 0 <= i && i < n - 1 ==> (h[a[i]] == nil) == (g[b[i]] == nil)) ==> cntRun(h, a, n - 1) == cntRun(g, b, n - 1))
 //@   ensures cntRun(h, a, n) == cntRun(g, b, n)
 
+// cntNotes(h, r, d, a, n): how many of the first n tasks are runnable
+// notifications - no error yet and a request without an id (h, r, d: the
+// contents of task.err, task.hreq and Request.id). This is what the batch adds
+// to the notification barrier.
+//@ spec cntNotes(ArrIface, ArrInt, ArrSlice, arr.*jrpc2.task, Int) Int
+//@ axiom forall(h ArrIface, r ArrInt, d ArrSlice, a arr.*jrpc2.task, n Int, n <= 0 ==> cntNotes(h, r, d, a, n) == 0)
+//@ axiom forall(h ArrIface, r ArrInt, d ArrSlice, a arr.*jrpc2.task, n Int, n > 0 ==> cntNotes(h, r, d, a, n) == cntNotes(h, r, d, a, n - 1) + ((h[a[n - 1]] == nil && d[r[a[n - 1]]] == nil) ? 1 : 0))
 //@ func (tasks).numToDo
 //@   requires forall(i int, 0 <= i && i < len(ts) ==> taskOK(ts[i]))
 //@   ensures[C03:counts] 0 <= notes && notes <= todo && todo <= len(ts)
 //@   ensures[C01:todo-counts-runnable] todo == cntRun(fieldarr("task", "err"), elems(ts), len(ts))
+//@   ensures[C03:notes-counts-runnable-notifications] notes == cntNotes(fieldarr("task", "err"), fieldarr("task", "hreq"), fieldarr("Request", "id"), elems(ts), len(ts))
 //@   loop 1 invariant 0 <= notes && notes <= todo && todo <= rangeindex + 1
 //@   loop 1 invariant todo == cntRun(fieldarr("task", "err"), elems(ts), rangeindex + 1)
+//@   loop 1 invariant notes == cntNotes(fieldarr("task", "err"), fieldarr("task", "hreq"), fieldarr("Request", "id"), elems(ts), rangeindex + 1)
 
 // deliver: nothing to report => nothing is sent and the lock is not even
 // taken. Otherwise, under the lock: every id this batch answers for a task
